@@ -421,7 +421,7 @@ func Run(e *core.Env, sc *Scenario) {
 	w.lis.Close()
 	<-acceptDone
 	// the client has closed its connections; whatever is left is closed here
-	synctest.Wait()
+	w.settle()
 	w.afterClose()
 	for _, pc := range w.peers {
 		if pc != nil {
